@@ -276,8 +276,27 @@ Proof.
 Qed.
 
 Definition ok_function (f : cfunction) : bool :=
-  match fn_coneway f with Some _ => true | None => head_not_in (fn_type f) [txt "oneway"; txt "throws"] end &&
   heads_ok_type (fn_type f) && ok_fields (fn_args f) && ok_throws (fn_cthrows f).
+
+(* the keyword oneway was not read although the text begins with the word: no blank follows the word *)
+Lemma oneway_head_inv t R : wf_type t = true -> is_perr (p_oneway lf (pr_type t R)) -> ~ noblank R -> oneway_head_ok t = true.
+Proof.
+  intros Wt H HR. destruct t as [[b| | | |[h tl]] an]; try reflexivity. cbn [oneway_head_ok cp_head cp_tail].
+  destruct (bytes_eq h (txt "oneway")) eqn:Eh; [|reflexivity]. apply bytes_eq_eq in Eh. subst h. cbn [negb orb].
+  assert (Wp : wf_path (mkCPath (txt "oneway") tl) = true).
+  { destruct an as [[bl a]|]; cbn [wf_type wf_ty] in Wt; bsplit Wt; assumption. }
+  unfold wf_path in Wp. cbn [cp_head cp_tail] in Wp. apply andb_prop in Wp. destruct Wp as [_ Wtl].
+  unfold p_oneway in H.
+  assert (E : pr_type (CType (CTPath (mkCPath (txt "oneway") tl)) an) R =
+              txt "oneway" ++ pr_path_tail tl (match an with Some (bl, a) => pr_blank bl (pr_anns a R) | None => R end)).
+  { destruct an as [[bl a]|]; reflexivity. }
+  rewrite E in H. change kw_oneway with (txt "oneway") in H. rewrite tag_ok in H. cbn [pbind] in H.
+  apply blank_err_noblank in H. destruct tl as [|[[c1 c2] s0] tl]; cbn [pr_path_tail] in H.
+  - destruct an as [[bl a]|]; [|contradiction]. cbn [wf_type] in Wt. bsplit Wt.
+    rewrite (noblank_pr_blank bl (pr_anns a R) ltac:(assumption) eq_refl H). reflexivity.
+  - cbn [forallb fst snd] in Wtl. bsplit Wtl.
+    rewrite (noblank_pr_blank c1 (txt "." ++ _) ltac:(assumption) eq_refl H). reflexivity.
+Qed.
 
 Lemma pr_throws_nonnil th k : k <> [] -> pr_throws th k <> [].
 Proof. destruct th; cbn [pr_throws]; [discriminate|auto]. Qed.
@@ -299,12 +318,13 @@ Proof.
   destruct (oanns_inv _ _ _ _ E11) as [an [-> [<- [Wa Han]]]]. destruct (osep_inv _ _ _ _ E12) as [sp [-> Hs]].
   (* the optional oneway *)
   assert (Eow : exists ow : option blank, i = match ow with Some b => txt "oneway" ++ pr_blank b i0 | None => i0 end /\
-                  is_some oo = negb (is_none ow) /\ match ow with Some b => wf_blank b = true /\ b <> [] | None => True end).
-  { apply opt_inv in E. destruct E as [[u [-> E]]|[-> [-> _]]].
+                  is_some oo = negb (is_none ow) /\
+                  match ow with Some b => wf_blank b = true /\ b <> [] | None => is_perr (p_oneway lf i0) end).
+  { apply opt_inv in E. destruct E as [[u [-> E]]|[-> [-> Herr]]].
     - unfold p_oneway in E. apply pbind_ok in E. destruct E as [j [tt0 [T B]]]. apply tag_inv in T. destruct T as [-> _].
       destruct (blank_inv _ _ _ _ B) as [b [-> [Nb [Kb _]]]]. exists (Some b). repeat split; auto.
       apply (blank_ok_nonnil _ _ Kb). rewrite Et. apply whead_nonnil, Ht.
-    - exists None. repeat split. }
+    - exists None. repeat split. exact Herr. }
   destruct Eow as [ow [-> [Eoo Wow]]]. subst i0.
   eexists (mkCFunction ow t b1 _ b2 b0 args b3 th an sp). unfold erase_function, wf_function, function_closed, ok_function.
   cbn [fn_coneway fn_type fn_b1 fn_cname fn_b2 fn_b0 fn_args fn_b3 fn_cthrows fn_canns fn_sep].
@@ -319,7 +339,8 @@ Proof.
     rewrite Hname, (blank_ok_nonnil _ _ K2) by discriminate. rewrite W0, (Wargs ltac:(assumption)), (blank_ok_nonnil _ _ K3 RT).
     rewrite (Wth RA ltac:(assumption)), Wa, (wf_sep_of sp r Hs Hr).
     destruct b1; [contradiction|]. cbn [is_nil negb andb]. rewrite !andb_true_r.
-    destruct ow as [bo|]; [destruct Wow as [-> Hne]; destruct bo; [contradiction|reflexivity]|assumption].
+    destruct ow as [bo|]; [destruct Wow as [-> Hne]; destruct bo; [contradiction|reflexivity]|].
+    apply (oneway_head_inv t _ (Wt ltac:(assumption)) Wow). intros Hnb. apply (noblank_blank lf) in Hnb. rewrite E1 in Hnb. exact Hnb.
   - intros Hc. destruct sp as [|semi bl]; cbn [sep_ok sep_none] in *; [|tauto].
     destruct an; [discriminate|]. cbn [pr_oanns pr_sep] in Nth. exact Nth.
   - unfold pr_function. cbn [fn_coneway fn_type fn_b1 fn_cname fn_b2 fn_b0 fn_args fn_b3 fn_cthrows fn_canns fn_sep].
